@@ -412,6 +412,9 @@ impl Connection {
     }
 }
 
+#[cfg(amiquip_verif)]
+pub(crate) use self::amqp_url::verif_decode_url;
+
 mod amqp_url {
     use super::*;
     use crate::{Auth, Error};
@@ -612,6 +615,26 @@ mod amqp_url {
         }
 
         Ok(options)
+    }
+
+    #[cfg(amiquip_verif)]
+    pub(crate) fn verif_decode_url(url: &str) -> Result<crate::verif::DecodedUrl> {
+        let mut url = Url::parse(url).context(UrlParseSnafu)?;
+        let scheme = populate_host_and_port(&mut url)?;
+        let options = decode(&url)?;
+        Ok(crate::verif::DecodedUrl {
+            secure: scheme == Scheme::Amqps,
+            host: url.host_str().unwrap_or("").to_string(),
+            port: url.port().unwrap_or(0),
+            information: options.verif_information(),
+            auth: options.auth,
+            virtual_host: options.virtual_host,
+            locale: options.locale,
+            channel_max: options.channel_max,
+            frame_max: options.frame_max,
+            heartbeat: options.heartbeat,
+            connection_timeout: options.connection_timeout,
+        })
     }
 
     #[cfg(test)]
